@@ -24,6 +24,73 @@ func rfcIndex(s string) bool {
 	return s == "0" || len(s) > 0 && '1' <= s[0] && s[0] <= '9' && allDigits(s)
 }
 
+// wfNode: type invariant of yaml.Node trees as the YAML decoder builds them (ASSUMED of the dependency,
+// stated as a precondition): no nil child; a mapping node holds key/value children alternately.
+func wfNode(n *yaml.Node) bool {
+	return (n.Kind != yaml.MappingNode || len(n.Content)%2 == 0) &&
+		vForallIn(0, len(n.Content), func(k int) bool { return n.Content[k] != nil })
+}
+
+// firstMember: RFC 6901 object step - the value of the FIRST member (from child index i on) whose name
+// equals the reference token exactly; nil when there is none.
+func firstMember(n *yaml.Node, key string, i int) *yaml.Node {
+	if i < 0 || i+1 >= len(n.Content) {
+		return nil
+	}
+	if n.Content[i].Value == key {
+		return n.Content[i+1]
+	}
+	return firstMember(n, key, i+2)
+}
+
+// rfcStep: ONE evaluation step of RFC 6901 section 4 from node n along the (already unescaped) reference
+// token tok: the designated child, or nil when the token designates nothing (no such member; not an
+// array-index, or index out of range; n is a scalar).
+func rfcStep(n *yaml.Node, tok string) *yaml.Node {
+	if n == nil {
+		return nil
+	}
+	if n.Kind == yaml.MappingNode {
+		return firstMember(n, tok, 0)
+	}
+	if n.Kind == yaml.SequenceNode && rfcIndex(tok) && decVal(tok) < uint64(len(n.Content)) {
+		return n.Content[decVal(tok)]
+	}
+	return nil
+}
+
+// rfcEvalS: RFC 6901 evaluation from node n of the reference tokens of s, s being the pointer text after
+// its leading '/': tokens are separated by '/', each is unescaped (rfcUnescape) and applied in turn; nil
+// as soon as one token designates nothing.
+func rfcEvalS(n *yaml.Node, s string) *yaml.Node {
+	if n == nil {
+		return nil
+	}
+	if indexB(s, '/') < 0 {
+		return rfcStep(n, rfcUnescape(s))
+	}
+	return rfcEvalS(rfcStep(n, rfcUnescape(s[:indexB(s, '/')])), s[indexB(s, '/')+1:])
+}
+
+// rfcEval: evaluation of a whole JSON Pointer (RFC 6901 section 3: "" or a sequence of '/'-prefixed tokens).
+func rfcEval(n *yaml.Node, ptr string) *yaml.Node {
+	if ptr == "" {
+		return n
+	}
+	if ptr[0] != '/' {
+		return nil
+	}
+	return rfcEvalS(n, ptr[1:])
+}
+
+// docRoot: the node a pointer is evaluated from - the content of a document node, else the node itself.
+func docRoot(n *yaml.Node) *yaml.Node {
+	if n.Kind == yaml.DocumentNode && len(n.Content) > 0 {
+		return n.Content[0]
+	}
+	return n
+}
+
 // Object member lookup: the FIRST member whose name equals the reference token, exact match.
 // Mapping nodes produced by the YAML decoder hold key/value children alternately (even count;
 // assumption on the dependency, stated as precondition).
@@ -34,17 +101,22 @@ func rfcIndex(s string) bool {
 //@   ensures hit:  ok ==> (exists j in (0, len(n.Content)) :: j%2 == 0 && n.Content[j].Value == part && r == n.Content[j+1] &&
 //@                          (forall i in (0, j) :: i%2 == 0 ==> n.Content[i].Value != part))
 //@   ensures miss: !ok ==> r == nil && (forall i in (0, len(n.Content)) :: i%2 == 0 ==> n.Content[i].Value != part)
+//@   ensures first: r == firstMember(n, part, 0) && ok == (r != nil)
 //@   loop 0 vars i int
 //@   loop 0 invariant even:  0 <= i && i%2 == 0 && i <= len(n.Content)
 //@   loop 0 invariant seen:  forall k in (0, i) :: k%2 == 0 ==> n.Content[k].Value != part
+//@   loop 0 invariant rest:  firstMember(n, part, 0) == firstMember(n, part, i)
 //@   loop 0 decreases len(n.Content) - i
 
-// Array element lookup: the token must be an RFC array-index and designate an existing element.
+// Array element lookup: the token must be an RFC array-index and designate an existing element - the
+// element at the position the decimal token denotes.
 //@ func findIdx(n *yaml.Node, part string) (r *yaml.Node, ok bool, err error)
 //@   requires node: n != nil
 //@   ensures syntax:  ok ==> rfcIndex(part)
-//@   ensures element: ok ==> err == nil && (exists k in (0, len(n.Content)) :: r == n.Content[k])
+//@   ensures element: ok ==> err == nil && decVal(part) < uint64(len(n.Content)) && r == n.Content[decVal(part)]
 //@   ensures noelem:  !ok ==> r == nil
+//@   ensures found:   rfcIndex(part) && decVal(part) < uint64(len(n.Content)) ==> ok
+//@   ensures failed:  err != nil ==> !ok && !(rfcIndex(part) && decVal(part) < uint64(len(n.Content)))
 
 // rfcUnescape: RFC 6901 section 4: "~1" -> "/" and "~0" -> "~", evaluated in ONE left-to-right pass
 // (so "~01" becomes "~1", never "/").
@@ -103,6 +175,39 @@ func hasSub2(s string, a, b byte) bool {
 //@ func unescape(part string) (r string)
 //@   uses unescapeNoTilde
 //@   ensures rfc: r == rfcUnescape(part)
+
+// (*yaml.Node).ShortTag only feeds an error text.
+//@ extern func (n *yaml.Node) ShortTag() (s string)
+//@   pure
+
+// find: evaluation of a plain JSON Pointer. splitFunc and the token closure are INLINED, so the token
+// loop is verified together with the captured variable `node` it advances; the invariant says the
+// tokens still to come, evaluated from the current node, designate what the whole pointer designates.
+//@ func find(ptr string, node *yaml.Node) (r *yaml.Node, err error)
+//@   inline splitFunc
+//@   requires root: node != nil
+//@   requires kids:  forall m *yaml.Node :: m != nil ==> (forall k in (0, len(m.Content)) :: m.Content[k] != nil)
+//@   requires pairs: forall m *yaml.Node :: m != nil && m.Kind == yaml.MappingNode ==> len(m.Content)%2 == 0
+//@   ensures sound:    err == nil ==> r != nil && r == rfcEval(node, ptr)
+//@   ensures complete: rfcEval(node, ptr) != nil ==> err == nil
+//@   ensures failnil:  err != nil ==> rfcEval(node, ptr) == nil
+//@   loop splitFunc.0 vars s_cur string, node_cur **yaml.Node
+//@   loop splitFunc.0 invariant live: *node_cur != nil
+//@   loop splitFunc.0 invariant acc:  rfcEvalS(*node_cur, s_cur) == rfcEvalS(node, ptr[1:])
+//@   loop splitFunc.0 decreases len(s_cur)
+
+// Resolve: plain form ("" or "/..."), URI-fragment form ("#" + percent-encoded pointer), or a URL whose
+// fragment is the pointer. The root is the content of a document node.
+//@ func Resolve(ptr string, node *yaml.Node) (r *yaml.Node, err error)
+//@   requires kids:  forall m *yaml.Node :: m != nil ==> (forall k in (0, len(m.Content)) :: m.Content[k] != nil)
+//@   requires pairs: forall m *yaml.Node :: m != nil && m.Kind == yaml.MappingNode ==> len(m.Content)%2 == 0
+//@   ensures nilroot: node == nil ==> err != nil
+//@   ensures whole:   node != nil && (ptr == "" || ptr == "#") ==> err == nil && r == docRoot(node)
+//@   ensures plain:   node != nil && len(ptr) > 0 && ptr[0] == '/' ==> (err == nil ==> r != nil && r == rfcEval(docRoot(node), ptr)) &&
+//@                      (rfcEval(docRoot(node), ptr) != nil ==> err == nil)
+//@   ensures frag:    node != nil && len(ptr) > 1 && ptr[0] == '#' ==>
+//@                      (err == nil ==> verifUnescOK(ptr[1:]) && r != nil && r == rfcEval(docRoot(node), verifUnescVal(ptr[1:]))) &&
+//@                      (verifUnescOK(ptr[1:]) && rfcEval(docRoot(node), verifUnescVal(ptr[1:])) != nil ==> err == nil)
 
 var _ yaml.Node
 var _ = strings.Contains
